@@ -49,7 +49,7 @@ fn emit(ctx: &mut Ctx, f: &Fld, kind: &str, line: String, res: &K256, spec: &WP)
     ctx.case(&format!("k256-{kind}"), true, &line, &big::tok_w(&got));
     let zero = f.fp(bu(0));
     if got != *spec || !big::w_on_curve(f, &zero, &f.fp(bu(7)), &got) {
-        ctx.oracle_fail(&format!("C11:{line}"), "secp256k1 operation disagrees with the affine chord-and-tangent law over big integers", json!({"op": line, "impl": big::tok_w(&got), "law": big::tok_w(spec)}));
+        crate::fail(ctx, &format!("C11:{line}"), "secp256k1 operation disagrees with the affine chord-and-tangent law over big integers", json!({"op": line, "impl": big::tok_w(&got), "law": big::tok_w(spec)}));
     }
 }
 
@@ -80,7 +80,7 @@ pub fn run(ctx: &mut Ctx) {
         || K256::identity().to_affine() != K256Affine::identity()
         || K256::from(K256Affine::identity()) != K256::identity()
     {
-        ctx.oracle_fail("C11:k256:identity", "identity constructors / conversions disagree", json!({}));
+        crate::fail(ctx, "C11:k256:identity", "identity constructors / conversions disagree", json!({}));
     }
     // accessors on the identity: the property asks constructors and accessors to be consistent
     let xi = mzkh::catch(|| K256Affine::identity().x());
@@ -99,7 +99,7 @@ pub fn run(ctx: &mut Ctx) {
         let ok = bz * bz * bz == Fp::ONE && bz != Fp::ONE && sz * sz * sz == Fq::ONE && sz != Fq::ONE && e.map(|e| K256::from(e) == g * sz).unwrap_or(false);
         ctx.count(&format!("k256-zeta-consistent:{ok}"));
         if !ok {
-            ctx.oracle_fail("C11:k256:zeta", "base_zeta / scalar_zeta do not define the GLV endomorphism", json!({}));
+            crate::fail(ctx, "C11:k256:zeta", "base_zeta / scalar_zeta do not define the GLV endomorphism", json!({}));
         }
     }
     for (class, pnt) in &ops {
@@ -117,13 +117,13 @@ pub fn run(ctx: &mut Ctx) {
             let fx = K256Affine::from_xy(x, y);
             ctx.case("k256-fromxy", true, &format!("k256 fromxy {xy}"), &fx.map_or("none".into(), |q| big::tok_w(&a_wp(&q))));
             if fx != Some(pa) {
-                ctx.oracle_fail(&format!("C11:k256:fromxy {xy}"), "from_xy(x(), y()) is not the point", json!({}));
+                crate::fail(ctx, &format!("C11:k256:fromxy {xy}"), "from_xy(x(), y()) is not the point", json!({}));
             }
             let bad = K256Affine::from_xy(x, y + Fp::ONE);
             let xy = format!("{}/{}", big::tok(&fp_e(&x)), big::tok(&fp_e(&(y + Fp::ONE))));
             ctx.case("k256-fromxy", true, &format!("k256 fromxy {xy}"), &bad.map_or("none".into(), |q| big::tok_w(&a_wp(&q))));
             if bad.is_some() {
-                ctx.oracle_fail(&format!("C11:k256:fromxy {xy}"), "from_xy accepts a point off the curve", json!({}));
+                crate::fail(ctx, &format!("C11:k256:fromxy {xy}"), "from_xy accepts a point off the curve", json!({}));
             }
         }
     }
@@ -170,7 +170,7 @@ pub fn run(ctx: &mut Ctx) {
         emit(ctx, &f, "sub", format!("k256 sub:p-=a {xt} {yt}"), &r, &diff);
         let law = xw == yw;
         if (x == y) != law || bool::from(x.ct_eq(&y)) != law || (xa == ya) != law || bool::from(xa.ct_eq(&ya)) != law {
-            ctx.oracle_fail(&format!("C11:k256:eq {xt} {yt}"), "equality differs from equality of the affine values", json!({}));
+            crate::fail(ctx, &format!("C11:k256:eq {xt} {yt}"), "equality differs from equality of the affine values", json!({}));
         }
         ctx.count(&format!("k256-eq:{law}"));
     }
@@ -224,7 +224,7 @@ pub fn run(ctx: &mut Ctx) {
                 for (j, q) in pts.iter().enumerate() {
                     ctx.case("k256-batch-normalize", true, &format!("k256 add:batch_normalize[{j}/{len}] {} inf", toks[j]), &big::tok_w(&a_wp(&out[j])));
                     if out[j] != q.to_affine() {
-                        ctx.oracle_fail(&format!("C11:k256:batch_normalize {}", toks[j]), "batch_normalize differs from to_affine", json!({}));
+                        crate::fail(ctx, &format!("C11:k256:batch_normalize {}", toks[j]), "batch_normalize differs from to_affine", json!({}));
                     }
                 }
             }
@@ -248,7 +248,7 @@ pub fn run(ctx: &mut Ctx) {
             let fld = Fld::new(p());
             let on = big::w_on_curve(&fld, &fld.fp(bu(0)), &fld.fp(bu(7)), &a_wp(&q));
             if !on {
-                ctx.oracle_fail(&format!("C11:k256:dec {h}"), "SEC1 decoder accepts an off-curve point", json!({"bytes": h}));
+                crate::fail(ctx, &format!("C11:k256:dec {h}"), "SEC1 decoder accepts an off-curve point", json!({"bytes": h}));
             }
             if q.to_bytes().as_ref() != &b[..] {
                 let key = if b[0] == 5 { "C11:k256:decoder-accepts-compact-tag-05".to_string() } else { format!("C11:k256:dec-noncanonical {h}") };
@@ -266,7 +266,7 @@ pub fn run(ctx: &mut Ctx) {
         ctx.case("k256-enc", true, &format!("k256 enc:projective {xt}"), &hex_bytes(&b2));
         let back: Option<K256Affine> = K256Affine::from_bytes(&xa.to_bytes()).into();
         if back != Some(xa) {
-            ctx.oracle_fail(&format!("C11:k256:roundtrip {xt}"), "from_bytes(to_bytes(P)) != P", json!({}));
+            crate::fail(ctx, &format!("C11:k256:roundtrip {xt}"), "from_bytes(to_bytes(P)) != P", json!({}));
         }
         dec(ctx, "valid", &b);
         valid.push(b);
